@@ -74,8 +74,12 @@ def make_run(which):
 
 @st.composite
 def cases(draw, tier):
-    if draw(st.integers(0, 3)) == 0:
+    k = draw(st.integers(0, 5))
+    if k == 0:
         return {"dfa": draw(G.dfa_specs(max_states=6))}
+    if k == 1:
+        # larger automata: refinement orders with waiting blocks of three or more states need at least six states
+        return {"dfa": draw(G.dfa_specs(min_states=6, max_states=9 if tier == "quick" else 11, sigma=draw(st.sampled_from([["a", "b"], ["a", "b"], ["a"], ["a", "b", "c"]]))))}
     return {"dfa": draw(G.inflated_dfa_specs(max_states=4 if tier == "quick" else 5, max_sigma=2))}
 
 
